@@ -34,9 +34,12 @@ UNICODE_TABLE = [
     (0x1C5,   "Dz caron titlecase (Lt)",        1, 0, 0, 0, 0),
     (0x3A9,   "GREEK CAPITAL OMEGA (Lu)",       1, 1, 0, 0, 0),
     (0x3BB,   "GREEK SMALL LAMDA (Ll)",         1, 0, 0, 0, 0),
+    (0x1680,  "OGHAM SPACE MARK (Zs)",          0, 0, 0, 1, 0),
+    (0x2003,  "EM SPACE (Zs)",                  0, 0, 0, 1, 0),
     (0x200B,  "ZERO WIDTH SPACE (Cf)",          0, 0, 0, 0, 0),
     (0x2028,  "LINE SEPARATOR (Zl)",            0, 0, 0, 1, 0),
     (0x2116,  "NUMERO SIGN (So)",               0, 0, 0, 0, 0),
+    (0x3000,  "IDEOGRAPHIC SPACE (Zs)",         0, 0, 0, 1, 0),
     (0x2167,  "ROMAN NUMERAL EIGHT (Nl)",       1, 1, 1, 0, 0),
     (0x65E5,  "CJK sun/day (Lo)",               1, 0, 0, 0, 0),
     (0x672C,  "CJK origin/book (Lo)",           1, 0, 0, 0, 0),
